@@ -163,3 +163,9 @@ Theorem C05_tree_spec_sound : forall X dmeta t writes ep name recursive segs ch,
   tree_spec_ok t ep name recursive (snd (client_readdir X (local_fs X dmeta t writes) ep name recursive)) = true.
 Proof. exact tree_spec_sound. Qed.
 Print Assumptions C05_tree_spec_sound.
+
+(** Non-vacuity: the codec hypotheses of the theorems above can be met. *)
+Theorem C05_hypotheses_satisfiable :
+  codec_laws toy_ext /\ (forall p, x_text toy_ext (x_mime_ext toy_ext p) = x_mime_ext toy_ext p).
+Proof. exact codec_laws_satisfiable. Qed.
+Print Assumptions C05_hypotheses_satisfiable.
